@@ -433,6 +433,8 @@ class extract_visitor(NodeVisitor):
             else:
                 if bound.name not in scope.nonlocals:
                     scope.locals.add(bound.name)
+                else:
+                    scope.top._nonlocal_binds.append(bound)
                 insert_loc(flow._names, bound)
 
 
